@@ -2,6 +2,7 @@ import MosnVerif.Drive.Util
 import MosnVerif.Model.Subset
 import MosnVerif.Model.SubsetRequest
 import MosnVerif.Model.SubsetSlice
+import MosnVerif.Model.CriteriaFlow
 namespace MosnVerif.Drive.C15
 open MosnVerif.Drive MosnVerif.Model.Subset MosnVerif.Model.SubsetRequest MosnVerif.Model.SubsetSlice
 
@@ -155,6 +156,80 @@ def runPx (mode pol dflt sels hosts route reqs obs : String) : String :=
     s!"{if agree then "A" else "D"} {if spec then "S" else "V"} {joinWith "|" (per.map (·.2.2))}"
   | _, _, _, _, _ => "E E bad-case"
 
+/-! ### kind `ps`: ONE request, several host selections (re-choose-host, route entry replaced, retry) -/
+
+def parseVarOp (op : String) : Option (List MosnVerif.Model.CriteriaFlow.Step) :=
+  if op == "k" then some []
+  else if op == "u" then some [.store none]
+  else if op.startsWith "s:" then (parsePairs (op.drop 2).toString).map (fun m => [.store (some m)])
+  else if op.startsWith "p:" then (parsePairs (op.drop 2).toString).map (fun m => [.put m])
+  else if op.startsWith "d:" then some [.del (op.drop 2).toString]
+  else none
+
+structure PsAcc where
+  s : MosnVerif.Model.CriteriaFlow.S
+  dvar : Option Meta          -- the variable as the filters left it (declarative side)
+  drc : Option Meta           -- the metadata_match map of the current route entry
+  obs : List String
+  outs : List String := []
+  agree : Bool := true
+  spec : Bool := true
+  stopped : Bool := false
+
+def runPs (mode pol dflt sels hosts routes v0 steps : String) (impl : List String) : String :=
+  open MosnVerif.Model.CriteriaFlow in
+  match pol.toNat?, parsePairs dflt, parseHosts hosts, impl with
+  | some policy, some d, some hs, [sel, first] =>
+    match ((routes.drop 2).toString.splitOn "/").mapM parsePairs, (if v0 == "n" then some none else (parsePairs (v0.drop 2).toString).map some) with
+    | some [r1, r2], some var0 =>
+      let raw := parseSelectors sels
+      let keys := generateSubsetKeys raw
+      let lb := if mode == "F" then newFilter hs policy d keys else newPreS goGrow id hs policy d keys
+      let obj (md : Meta) := ruleCriteria 0 none (routeObject md)
+      let rcOf (md : Meta) : Option Meta := if md.isEmpty then none else some md
+      let ds := List.range (hs.length + 1)
+      -- one selection
+      let doSel (a : PsAcc) : PsAcc :=
+        if a.stopped then a else
+        let r := MosnVerif.Model.CriteriaFlow.select Gen.CriteriaFlow.memoized Gen.SubsetRequest.varCopiedBeforeMerge a.s
+        let possible := ds.flatMap (fun d1 => ds.filterMap (fun d2 => proxyChoose rrChoose lb r.1 d1 d2))
+        let targets := requestTargets hs raw policy d a.drc a.dvar
+        match a.obs with
+        | [] => { a with agree := false, spec := false, stopped := true, outs := names possible :: a.outs }
+        | o :: rest =>
+          let okHost (l : List Host) : Bool := if o == "none" then l.isEmpty else (l.map (·.name)).contains o
+          { a with s := r.2, obs := rest, outs := names possible :: a.outs, agree := a.agree && okHost possible,
+                   spec := a.spec && okHost targets, stopped := o == "none" }
+      let applyEdits (a : PsAcc) (es : List Step) : PsAcc :=
+        if a.stopped then a else
+        { a with s := es.foldl edit a.s, dvar := (es.foldl edit ({ var := a.dvar, route := none } : S)).var }
+      let stepToks := steps.splitOn "|"
+      let init : PsAcc := doSel { s := { var := var0, route := obj r1 }, dvar := var0, drc := rcOf r1, obs := sel.splitOn "," }
+      let fin := stepToks.foldl (fun (a : Option PsAcc) st =>
+        match a with
+        | none => none
+        | some a =>
+          let kind := (st.take 2).toString
+          match parseVarOp (st.drop 2).toString with
+          | none => none
+          | some es =>
+            if kind == "c:" || kind == "t:" then some (doSel (applyEdits a es))
+            else if kind == "e:" then
+              let a' := if a.stopped then a else { a with s := edit a.s (.route (obj r2)), drc := rcOf r2 }
+              some (doSel (applyEdits a' es))
+            else none) (some init)
+      match fin with
+      | none => "E E bad-case"
+      | some a =>
+        -- the first upstream attempt goes to the host of the last selection made before it
+        let nBefore := (stepToks.filter (fun st => !st.startsWith "t:")).length
+        let obsL := sel.splitOn ","
+        let firstOk := first == "@" ++ (if obsL.contains "none" && obsL.length ≤ nBefore + 1 then "-" else obsL.getD nBefore "-")
+        let leftover := !a.obs.isEmpty
+        s!"{if a.agree && firstOk && !leftover then "A" else "D"} {if a.spec && firstOk && !leftover then "S" else "V"} {joinWith "," a.outs.reverse}"
+    | _, _ => "E E bad-case"
+  | _, _, _, _ => "E E bad-case"
+
 def stripTag (tag : String) (s : String) : Option String :=
   if s.startsWith tag then some (s.drop tag.length).toString else none
 
@@ -253,6 +328,7 @@ def runQuery (kind : String) (policy : Nat) (d : Path) (hs : List Host) (raw : L
 def run (caseToks impl : List String) : String :=
   match caseToks, impl with
   | ["px", mode, pol, dflt, sels, hosts, route, reqs], [obs] => runPx mode pol dflt sels hosts route reqs obs
+  | ["ps", mode, pol, dflt, sels, hosts, routes, v0, steps], impl => runPs mode pol dflt sels hosts routes v0 steps impl
   | ["t", pol, dflt, sels, hosts, "trie"], [fi, pi] => runTrie pol dflt sels hosts fi pi
   | ["gk", sels], [obs] => runGk sels obs
   | ["ak", pol, dflt, sels, hosts, query], [fi, pi] =>
